@@ -39,17 +39,21 @@ CONSTANTS Configs,          \* set of [mode, user : Seq(file), libs : Seq(Seq(fi
           DevBibMerge,      \* deviation: .bib entries are merged into the citation table
           DevSplitAll,      \* deviation: .itp finalize splits links of every dangling block it meets again
           DevTmplMerge,     \* deviation: templates of build files accumulate
-          DevSkipUserUnknown \* deviation: unknown user files are skipped like library files
+          DevSkipUserUnknown, \* deviation: unknown user files are skipped like library files
+          DevIdReuse        \* deviation (finding X02 itp-finalize-id-reuse): .itp finalize recognises blocks of earlier files by id();
+                            \* a block created after this file replaced (freed) an earlier file's block may get the freed id and be skipped
 
 (* file    = [name, kind, user, secs]   kind in {"ff","itp","bib","bld","txt"}                                   *)
 (* section = [t, n, d, dang, g]          t in {"block","link","mod","other","cite","tmpl","vol"}                  *)
 (*           n name (block / modification / citation key / residue name; for a link the residue name it is for)  *)
 (*           d definition id (> 0), dang: .itp block with a dangling interaction, g: graph id of a template      *)
 
-VARIABLES cfg, queue, pc, cur, si, ph, curB, curL, curM, ltmpl, r2h, st, nfiles
-vars == <<cfg, queue, pc, cur, si, ph, curB, curL, curM, ltmpl, r2h, st, nfiles>>
+VARIABLES cfg, queue, pc, cur, si, ph, curB, curL, curM, ltmpl, r2h, st, nfiles,
+          freed,   \* this file has replaced a block of an earlier file (its object is gone)
+          risk     \* history: some dangling block was exposed to the id() test of DevIdReuse
+vars == <<cfg, queue, pc, cur, si, ph, curB, curL, curM, ltmpl, r2h, st, nfiles, freed, risk>>
 
-Null == [n |-> "", d |-> 0, pend |-> FALSE]
+Null == [n |-> "", d |-> 0, pend |-> FALSE, risky |-> FALSE, fi |-> 0]
 NullFile == [name |-> "", kind |-> "", user |-> FALSE, secs |-> <<>>]
 EmptyStore == [blocks |-> <<>>, links |-> <<>>, mods |-> <<>>, cites |-> {}, volR |-> <<>>, volG |-> <<>>, tmpl |-> <<>>, err |-> FALSE]
 
@@ -71,7 +75,7 @@ Init == /\ cfg \in Configs
         /\ queue = LoadOrder(cfg)
         /\ pc = "idle" /\ cur = NullFile /\ si = 0 /\ ph = "new"
         /\ curB = Null /\ curL = Null /\ curM = Null /\ ltmpl = <<>> /\ r2h = <<>>
-        /\ st = EmptyStore /\ nfiles = 0
+        /\ st = EmptyStore /\ nfiles = 0 /\ freed = FALSE /\ risk = FALSE
 
 \* get_parser + open
 Open == /\ pc = "idle" /\ queue # <<>>
@@ -79,22 +83,23 @@ Open == /\ pc = "idle" /\ queue # <<>>
              IF Parsed(cfg.mode, f)
              THEN /\ pc' = "infile" /\ cur' = f /\ si' = 0 /\ ph' = "new"
                   /\ curB' = Null /\ curL' = Null /\ curM' = Null /\ ltmpl' = <<>> /\ r2h' = <<>>
+                  /\ freed' = FALSE
                   /\ UNCHANGED <<queue, st, nfiles>>
              ELSE IF f.user /\ ~DevSkipUserUnknown
              THEN /\ pc' = "error" /\ st' = [st EXCEPT !.err = TRUE]
-                  /\ UNCHANGED <<queue, cur, si, ph, curB, curL, curM, ltmpl, r2h, nfiles>>
+                  /\ UNCHANGED <<queue, cur, si, ph, curB, curL, curM, ltmpl, r2h, nfiles, freed>>
              ELSE /\ queue' = Tail(queue) /\ nfiles' = nfiles + 1           \* library file of another kind: skipped
-                  /\ UNCHANGED <<pc, cur, si, ph, curB, curL, curM, ltmpl, r2h, st>>
-        /\ UNCHANGED cfg
+                  /\ UNCHANGED <<pc, cur, si, ph, curB, curL, curM, ltmpl, r2h, st, freed>>
+        /\ UNCHANGED <<cfg, risk>>
 
 Sec == cur.secs[si + 1]
 \* a top-level header creates the context of its section (header_actions)
 New == /\ pc = "infile" /\ cur.kind \in {"ff", "itp"} /\ ph = "new" /\ si < Len(cur.secs)
-       /\ curB' = IF Sec.t = "block" THEN [n |-> Sec.n, d |-> Sec.d, pend |-> Sec.dang] ELSE curB
-       /\ curL' = IF Sec.t = "link" THEN [n |-> Sec.n, d |-> Sec.d, pend |-> FALSE] ELSE curL
-       /\ curM' = IF Sec.t = "mod" THEN [n |-> Sec.n, d |-> Sec.d, pend |-> FALSE] ELSE curM
+       /\ curB' = IF Sec.t = "block" THEN [n |-> Sec.n, d |-> Sec.d, pend |-> Sec.dang, risky |-> freed /\ cur.kind = "itp", fi |-> nfiles + 1] ELSE curB
+       /\ curL' = IF Sec.t = "link" THEN [n |-> Sec.n, d |-> Sec.d, pend |-> FALSE, risky |-> FALSE, fi |-> nfiles + 1] ELSE curL
+       /\ curM' = IF Sec.t = "mod" THEN [n |-> Sec.n, d |-> Sec.d, pend |-> FALSE, risky |-> FALSE, fi |-> nfiles + 1] ELSE curM
        /\ si' = si + 1 /\ ph' = "fin"
-       /\ UNCHANGED <<cfg, queue, pc, cur, ltmpl, r2h, st, nfiles>>
+       /\ UNCHANGED <<cfg, queue, pc, cur, ltmpl, r2h, st, nfiles, freed, risk>>
 
 \* finalize_section: whatever is current is stored (again)
 Stored(s) == [s EXCEPT !.blocks = IF curB # Null THEN Put(@, curB) ELSE @,
@@ -103,24 +108,31 @@ Stored(s) == [s EXCEPT !.blocks = IF curB # Null THEN Put(@, curB) ELSE @,
 Fin == /\ pc = "infile" /\ cur.kind \in {"ff", "itp"} /\ ph = "fin"
        /\ st' = Stored(st)
        /\ ph' = IF si = Len(cur.secs) THEN "close" ELSE "new"
-       /\ UNCHANGED <<cfg, queue, pc, cur, si, curB, curL, curM, ltmpl, r2h, nfiles>>
+       /\ freed' = (freed \/ (curB # Null /\ HasName(st.blocks, curB.n) /\ Get(st.blocks, curB.n).fi # nfiles + 1))
+       /\ UNCHANGED <<cfg, queue, pc, cur, si, curB, curL, curM, ltmpl, r2h, nfiles, risk>>
 \* an empty file: finalize() still calls finalize_section once
 FinEmpty == /\ pc = "infile" /\ cur.kind \in {"ff", "itp"} /\ ph = "new" /\ si = 0 /\ Len(cur.secs) = 0
-            /\ ph' = "close" /\ UNCHANGED <<cfg, queue, pc, cur, si, curB, curL, curM, ltmpl, r2h, st, nfiles>>
+            /\ ph' = "close" /\ UNCHANGED <<cfg, queue, pc, cur, si, curB, curL, curM, ltmpl, r2h, st, nfiles, freed, risk>>
 
 \* PolyplyParser.finalize: every block of the force field (dict order) that still carries dangling interactions is split
-RECURSIVE SplitFrom(_, _, _)
-SplitFrom(blocks, links, i) ==
+\* K: positions of dangling blocks that the id() test takes for blocks of earlier files (only with DevIdReuse): they are passed over
+RECURSIVE SplitFrom(_, _, _, _)
+SplitFrom(blocks, links, i, K) ==
   IF i > Len(blocks) THEN [blocks |-> blocks, links |-> links]
+  ELSE IF blocks[i].pend /\ i \in K
+       THEN SplitFrom([blocks EXCEPT ![i].pend = FALSE], links, i + 1, K)
   ELSE IF blocks[i].pend
-       THEN SplitFrom([blocks EXCEPT ![i].pend = DevSplitAll], Append(links, blocks[i].d), i + 1)
-       ELSE SplitFrom(blocks, links, i + 1)
+       THEN SplitFrom([blocks EXCEPT ![i].pend = DevSplitAll], Append(links, blocks[i].d), i + 1, K)
+       ELSE SplitFrom(blocks, links, i + 1, K)
+Exposed == {i \in 1..Len(st.blocks) : st.blocks[i].pend /\ st.blocks[i].risky}
 Close == /\ pc = "infile" /\ cur.kind \in {"ff", "itp"} /\ ph = "close"
-         /\ st' = IF cur.kind = "itp"
-                  THEN LET r == SplitFrom(st.blocks, st.links, 1) IN [st EXCEPT !.blocks = r.blocks, !.links = r.links]
-                  ELSE st
+         /\ IF cur.kind = "itp"
+            THEN \E K \in (IF DevIdReuse THEN SUBSET Exposed ELSE {{}}) :
+                   LET r == SplitFrom(st.blocks, st.links, 1, K) IN st' = [st EXCEPT !.blocks = r.blocks, !.links = r.links]
+            ELSE st' = st
+         /\ risk' = (risk \/ (cur.kind = "itp" /\ Exposed # {}))
          /\ pc' = "idle" /\ queue' = Tail(queue) /\ nfiles' = nfiles + 1
-         /\ UNCHANGED <<cfg, cur, si, ph, curB, curL, curM, ltmpl, r2h>>
+         /\ UNCHANGED <<cfg, cur, si, ph, curB, curL, curM, ltmpl, r2h, freed>>
 
 \* read_bib: the citation table of the force field is REPLACED by the entries of this file
 CiteSet(f) == {[n |-> f.secs[i].n, d |-> f.secs[i].d] : i \in 1..Len(f.secs)}
@@ -130,7 +142,7 @@ ReadBib == /\ pc = "infile" /\ cur.kind = "bib"
                                           THEN {e \in @ : ~\E o \in CiteSet(cur) : o.n = e.n} \cup LastPerKey(CiteSet(cur))
                                           ELSE LastPerKey(CiteSet(cur))]
            /\ pc' = "idle" /\ queue' = Tail(queue) /\ nfiles' = nfiles + 1
-           /\ UNCHANGED <<cfg, cur, si, ph, curB, curL, curM, ltmpl, r2h>>
+           /\ UNCHANGED <<cfg, cur, si, ph, curB, curL, curM, ltmpl, r2h, freed, risk>>
 
 \* build file: [ template ] (stored when its [ bonds ] section ends) and [ volumes ] lines
 BldSec == /\ pc = "infile" /\ cur.kind = "bld" /\ si < Len(cur.secs)
@@ -141,24 +153,45 @@ BldSec == /\ pc = "infile" /\ cur.kind = "bld" /\ si < Len(cur.secs)
              ELSE /\ st' = [st EXCEPT !.volR = PutAlways(@, [n |-> Sec.n, d |-> Sec.d])]
                   /\ UNCHANGED <<ltmpl, r2h>>
           /\ si' = si + 1
-          /\ UNCHANGED <<cfg, queue, pc, cur, ph, curB, curL, curM, nfiles>>
+          /\ UNCHANGED <<cfg, queue, pc, cur, ph, curB, curL, curM, nfiles, freed, risk>>
 \* BuildDirector.finalize: molecule.templates = this file's templates; volumes by residue name are copied to the file's graphs
 RECURSIVE NameVols(_, _, _)
 NameVols(volG, volR, pairs) ==
   IF pairs = <<>> THEN volG
   ELSE LET p == Head(pairs) IN
        NameVols(IF HasName(volR, p.n) THEN PutAlways(volG, [n |-> p.g, d |-> Get(volR, p.n).d, named |-> TRUE]) ELSE volG, volR, Tail(pairs))
+\* resnames_to_hash is a dict resname -> list of graphs: the pairs are visited grouped by residue name, the names in the order of
+\* their first template in this file
+FirstIdx(pairs, nm) == CHOOSE i \in 1..Len(pairs) : pairs[i].n = nm /\ \A j \in 1..(i - 1) : pairs[j].n # nm
+Grouped(pairs) == LET idx == [i \in 1..Len(pairs) |-> [i |-> i, k |-> FirstIdx(pairs, pairs[i].n) * (Len(pairs) + 1) + i]]
+                      srt == SortSeq(idx, LAMBDA a, b : a.k < b.k)
+                  IN [j \in 1..Len(pairs) |-> pairs[srt[j].i]]
 RECURSIVE MergeSeq(_, _)
 MergeSeq(a, b) == IF b = <<>> THEN a ELSE MergeSeq(PutAlways(a, Head(b)), Tail(b))
 BldClose == /\ pc = "infile" /\ cur.kind = "bld" /\ si = Len(cur.secs)
             /\ st' = [st EXCEPT !.tmpl = IF DevTmplMerge THEN MergeSeq(@, ltmpl) ELSE ltmpl,
-                                !.volG = NameVols(@, st.volR, r2h)]
+                                !.volG = NameVols(@, st.volR, Grouped(r2h))]
             /\ pc' = "idle" /\ queue' = Tail(queue) /\ nfiles' = nfiles + 1
-            /\ UNCHANGED <<cfg, cur, si, ph, curB, curL, curM, ltmpl, r2h>>
+            /\ UNCHANGED <<cfg, cur, si, ph, curB, curL, curM, ltmpl, r2h, freed, risk>>
 
 Next == Open \/ New \/ Fin \/ FinEmpty \/ Close \/ ReadBib \/ BldSec \/ BldClose
 Spec == Init /\ [][Next]_vars
 Done == (pc = "idle" /\ queue = <<>>) \/ pc = "error"
+
+(* ---- projection of the store and labels of the steps (shared by the export and the trace specification) *)
+Pairs(seq) == [i \in 1..Len(seq) |-> [n |-> seq[i].n, d |-> seq[i].d]]
+Proj(s) == [blocks |-> Pairs(s.blocks), links |-> s.links, mods |-> Pairs(s.mods),
+            cites |-> SetToSortSeq(s.cites, LAMBDA a, b : a.d < b.d),
+            volR |-> Pairs(s.volR), volG |-> [i \in 1..Len(s.volG) |-> [n |-> s.volG[i].n, d |-> s.volG[i].d, named |-> s.volG[i].named]],
+            tmpl |-> Pairs(s.tmpl), err |-> s.err]
+Label == IF pc = "idle" THEN (LET f == Head(queue) IN IF Parsed(cfg.mode, f) THEN "open" ELSE IF f.user THEN "error" ELSE "skip")
+         ELSE IF cur.kind = "bib" THEN "end"
+         ELSE IF cur.kind = "bld" THEN (IF si < Len(cur.secs) THEN "bldsec" ELSE "end")
+         ELSE IF ph = "new" /\ si < Len(cur.secs) THEN (IF cur.secs[si + 1].t = "other" THEN "new_other" ELSE "new")
+         ELSE IF ph = "fin" THEN "fin"
+         ELSE IF ph = "new" THEN "finempty"
+         ELSE "end"
+FileName == IF pc = "idle" THEN Head(queue).name ELSE cur.name
 
 (* ======================================================================= P-layer *)
 \* files that are read, in loading order (the P-layer's own statement of the order: user files first)
@@ -222,8 +255,12 @@ PVolG(files) ==
   { LET Tg == {e \in T : e.g = gg}
         named == {e \in Tg : VolAtEnd(files, e.fi, e.n) # 0}
         lastfi == IF named = {} THEN 0 ELSE CHOOSE k \in {e.fi : e \in named} : \A o \in named : o.fi <= k
-        \* inside that file the pairs are visited in text order: the last named pair wins
-        win == IF named = {} THEN FirstOf(Tg) ELSE LastOf({e \in named : e.fi = lastfi})
+        \* inside that file the templates are visited grouped by residue name (names in the order of their first template in the
+        \* file), inside a group in text order: the last named one visited wins
+        FirstSi(nm) == LET Q == {e \in T : e.fi = lastfi /\ e.n = nm} IN FirstOf(Q).si
+        inlast == {e \in named : e.fi = lastfi}
+        win == IF named = {} THEN FirstOf(Tg)
+               ELSE CHOOSE e \in inlast : \A o \in inlast : o = e \/ FirstSi(o.n) < FirstSi(e.n) \/ (o.n = e.n /\ o.si < e.si)
     IN IF named = {} THEN [n |-> gg, d |-> win.d, named |-> FALSE]
                      ELSE [n |-> gg, d |-> VolAtEnd(files, lastfi, win.n), named |-> TRUE]
     : gg \in {e.g : e \in T} }
